@@ -1,5 +1,6 @@
 //! zipconf: conformance harness binding the TLA+ specification in /verif/spec to zip-rs/zip.
 mod cp437;
+mod eexec;
 mod lexer;
 mod rexec;
 mod sink;
@@ -16,6 +17,7 @@ fn main() {
     let code = match args[1].as_str() {
         "wexec" => wexec::main_wexec(rest),
         "rexec" => rexec::main_rexec(rest),
+        "eexec" => eexec::main_eexec(rest),
         "lex" => {
             let b = std::fs::read(&rest[0]).expect("read");
             let o = lexer::LexOpts { allow_trailing: true, ..Default::default() };
